@@ -117,8 +117,39 @@ def check_C01(chk, tier, seed):
         r = rng.fork(f"ext{i}")
         _, ops = gen.gen_history(r, eng.dicts[did], maxops=4, depth=2)
         ext.append(hist_line(did, ("DEC", fr), ops))
+    # decode-then-extend from frames that are NOT well-formed: whatever the decoder accepts must still encode consistently
+    cf = corpus_frames(rng.fork("hostile"), eng, 150 if tier == "quick" else 3000)[: (60 if tier == "quick" else 1200)]
+    for i, (kind, did, f, _) in enumerate(frame_families(rng.fork("hf"), eng, cf, 6 if tier == "quick" else 20)):
+        if kind in ("wellformed", "random", "truncate") or len(f) < 20:
+            continue
+        r = rng.fork(f"hx{i}")
+        _, ops = gen.gen_history(r, eng.dicts[did], maxops=2, depth=1)
+        ext.append(hist_line(did, ("DEC", f), ops))
     impl2, model2 = eng.run(ext)
     allc = list(zip(cases + ext, impl + impl2, model + model2))
+    # the implementation accepted a starting frame the model rejects (or vice versa): judge the implementation on its own
+    # observation with the reference encoder (independent of the model's run)
+    lonely = [k for k, (c, im, mo) in enumerate(allc) if im.startswith("R ok") and not split_obs(mo)[0].startswith("R ok")]
+    spec = dict(zip(lonely, eng.ask_model(["SPEC " + msg_text(allc[k][1]) for k in lonely]))) if lonely else {}
+    for k in lonely:
+        c, im, mo = allc[k]
+        t = spec[k].split()
+        enc = im[im.rindex(" ENC ") + 5:]
+        try:
+            m = parse_result(im)["msg"]
+        except Exception:
+            continue
+        if len(t) >= 6 and t[3] == "1":
+            why = None
+            if enc != t[1]:
+                why = "encoded octets differ from the reference RFC 6733 encoding of the message the builder holds"
+            elif int(m["len"], 16) != (len(enc) - 1) // 2:
+                why = "reported message length differs from octets produced"
+            if why:
+                if has_fixed_mismatch(m) and kf1_open("C01"):
+                    chk.known("KF-1")
+                else:
+                    chk.violation(why + " (history starting from a decoded frame)", dict(case=short(c, 3000), impl=short(im, 3000), reference=short(t[1], 3000)))
     for i, (c, im, mo) in enumerate(allc):
         toks = c.split()
         nontrivial = " A " in im or " A " in mo
@@ -355,6 +386,40 @@ def corpus_frames(rng, eng, nhist):
     return out
 
 
+def display_stress_frames(eng):
+    """reference-encoded frames whose values stress formatting/inspection of returned messages: every type with empty / minimal
+    variable-length values, strings of multi-octet characters at every alignment around 32, 64, 128 and 256 octets"""
+    g = eng.dicts["g"]
+    by = {}
+    for d in g.live():
+        if d["vendor"] is None and d["code"] < 1100:
+            by.setdefault(d["ty"], d)
+    cases = []
+
+    def one(ty, leaf):
+        d = by[ty]
+        cases.append(hist_line("g", ("NEW", 272, 4, 0x80, 1, 2), [("ADDAVP", d["code"], None, 0x40, ("L", leaf))]))
+    for ty, kind in (("utf", "utf"), ("id", "id"), ("oct", "oct"), ("uri", "uri")):
+        one(ty, (kind, b""))
+        one(ty, (kind, b"\0"))
+    cases.append(hist_line("g", ("NEW", 272, 4, 0x80, 1, 2), [("ADDAVP", by["grp"]["code"], None, 0, ("GN", []))]))
+    for ch in ("é", "€", "\U00010000"):
+        cb = ch.encode()
+        for edge in (16, 32, 64, 128, 256):
+            for shift in range(len(cb)):
+                for extra in (0, 1, len(cb)):
+                    body = b"a" * (edge - shift) + cb * 2 + b"b" * extra
+                    one("utf", ("utf", body))
+                    one("id", ("id", body))
+    model = eng.ask_model(cases)
+    out = []
+    for c, m in zip(cases, model):
+        _, o = split_obs(m)
+        if o.get("WD") == "1":
+            out.append(("g", bytes.fromhex(o["SPEC"][1:])))
+    return out
+
+
 def frame_families(rng, eng, frames, per_frame, thorough=False):
     """(kind, dictid, frame, must_accept) for every family of section 6"""
     out = []
@@ -371,6 +436,14 @@ def frame_families(rng, eng, frames, per_frame, thorough=False):
             out.append((k, did, f, False))
         for k, f in gen.hostile_variants(r, fr, nodes, per_frame):
             out.append((k, did, f, False))
+        f = gen.strip_final_padding(fr, nodes)
+        if f is not None:
+            out.append(("strip-final-padding", did, f, False))
+        for nd in r.shuffle([n for n in nodes if n["hdr"] == 8])[:2]:
+            for vendor in (0, 1, 10415):
+                f = gen.vendorize(fr, nodes, nd, vendor)
+                if f is not None:
+                    out.append(("vendorize", did, f, False))
         if thorough or i % 8 == 0:
             for cut in range(0, len(fr)):
                 out.append(("truncate", did, fr[:cut], False))
@@ -397,6 +470,7 @@ def check_C03(chk, tier, seed):
     frames = frames[: (160 if tier == "quick" else 3000)]
     fam = frame_families(rng, eng, frames, 20 if tier == "quick" else 60, thorough=(tier == "thorough" and False))
     fam += [("regress", c.split()[1], bytes.fromhex(c.split()[2][1:]), False) for c in regress_cases("C03") if c.startswith("X ")]
+    fam += [("display-stress", did, f, True) for did, f in display_stress_frames(eng)]
     cases = [f"X {did} {xb(f)}" for (_, did, f, _) in fam]
     impl, model = eng.run(cases)
     # oracle: is the returned tree the one the octets denote, and what is its reference encoding
@@ -473,6 +547,12 @@ def check_C04(chk, tier, seed):
     frames = corpus_frames(rng, eng, nh)[: (120 if tier == "quick" else 2000)]
     fam = frame_families(rng, eng, frames, 25 if tier == "quick" else 80, thorough=(tier == "thorough"))
     fam += [("regress", c.split()[1], bytes.fromhex(c.split()[2][1:]), False) for c in regress_cases("C04") if c.startswith("X ")]
+    fam += [("display-stress", did, f, True) for did, f in display_stress_frames(eng)]
+    tab = eng.ask_model(exhaustive_type_table(eng))
+    for m in tab:
+        _, o = split_obs(m)
+        if o.get("WD") == "1" and len(o["SPEC"]) < 20000:
+            fam.append(("type-table", "g", bytes.fromhex(o["SPEC"][1:]), True))
     # nesting sweep: every depth 1..70, then up to what fits 1 MiB (quick) / 16 MiB is out of the stream limit but legal for decode_from
     grp = [d for d in eng.dicts["g"].live() if d["ty"] == "grp" and d["vendor"] is None][0]
     depths = list(range(1, 71)) + [100, 500, 1000, 5000, 20000, 60000, 131000]
@@ -574,12 +654,34 @@ def check_C05(chk, tier, seed):
         if tier == "quick" and n == (1 << 24) - 4:
             continue
         big.append((f"W g NEW 110 4 80 1 2 1 ADDAVP 3f3 - 0 L octz {hx(n)} {hx(1 << 26)} 0", n, ok))
-    big_out = core.run_sharded([eng.harness, "codec"], eng.prelude, [b[0] for b in big], shards=min(4, len(big)), timeout=900)
+    # single AVPs through Avp::encode_to (public API), with and without vendor id, around 2^24, also inside a group
+    for vendor, h in ((None, 8), (10415, 12)):
+        for total in ((1 << 24) - 1, 1 << 24, (1 << 24) + 1, (1 << 24) + 3, (1 << 24) + 4):
+            n = total - h
+            v = "-" if vendor is None else hx(vendor)
+            big.append((f"WA g E 3f3 {v} 0 L octz {hx(n)} {hx(1 << 26)}", None, total < (1 << 24)))
+        # a group whose only member pushes the group's own length to 2^24 - 4 (fits) and to 2^24 (does not)
+        for glen in ((1 << 24) - 4, 1 << 24):
+            m = glen - 8 - h                     # member value length (multiple of 4: no padding)
+            v = "-" if vendor is None else hx(vendor)
+            big.append((f"WA g E 3f0 - 0 GN 1 E 3f3 {v} 0 L octz {hx(m)} {hx(1 << 26)}", None, glen < (1 << 24)))
+
+    big_out = core.run_sharded([eng.harness, "codec"], eng.prelude, [b[0] for b in big], shards=min(8, len(big)), timeout=900)
     for (c, n, ok), o in zip(big, big_out):
         chk.case(c, True)
         chk.count("big")
         chk.validated += 1
         t = o.split()
+        if n is None:
+            if len(t) < 4 or t[0] != "WA":
+                chk.violation("AVP encoder did not return on a large AVP: " + short(o, 200), dict(case=c, impl=short(o)))
+            elif (t[1] == "ok") != ok:
+                ln = int(t[5], 16)
+                chk.violation((f"encoding reported success for an AVP whose length {ln} does not fit the 24-bit length field" if not ok else
+                               f"an AVP of {ln} octets (below 2^24) was refused"), dict(case=c, impl=short(o)))
+            elif ok and not (int(t[2], 16) == int(t[5], 16) + int(t[7], 16) and t[3][11:17] == "%06x" % int(t[5], 16)):
+                chk.violation("a large AVP was not encoded faithfully (octet count / length field)", dict(case=c, impl=short(o)))
+            continue
         total = 20 + 8 + n + (4 - n % 4) % 4
         if len(t) < 4 or t[0] != "W":
             chk.violation("encoder did not return on a large message: " + short(o, 200), dict(case=c, impl=short(o)))
